@@ -162,6 +162,9 @@ def compare(cx, actual, expected, label, seen=None, kind="post"):
             ev = expected.at(*idx)
             guard = getattr(expected, "cmp_guard", None)  # the specification speaks of these elements only
             eq = V.s_cmp("==", av, ev)
+            alts = getattr(expected, "cmp_alternatives", None)  # the specification admits any of several values
+            if alts:
+                eq = z3.Or(V.to_z3(eq), *[V.to_z3(V.s_cmp("==", av, f(*idx))) for f in alts])
             if guard is not None:
                 eq = z3.Implies(V.to_z3(guard(*idx)), V.to_z3(eq))
             cx.oblige(f"{label}[{','.join(str(i) for i in idx)}] equals specification" + (f" ({expected.cmp_guard_text})" if guard is not None else ""), eq, kind=kind)
@@ -281,7 +284,9 @@ def run_unit(spec: Spec, repo: Repo | None = None, timeout_s=20.0, want_smt2=Fal
         return first
     for alt in alts:
         r = _run_unit(alt, repo, timeout_s, want_smt2)
-        if _clean(r):
+        comps = alt.companions() if hasattr(alt, "companions") else []
+        # an alternative that rests on an invariant is admissible only if the companion units that establish it hold too
+        if _clean(r) and all(_clean(_run_unit(c, repo, timeout_s, want_smt2)) for c in comps):
             r.unit = first.unit
             r.notes.append(f"satisfied by the alternative specification '{alt.unit_name()}' (primary: '{spec.unit_name()}')")
             return r
